@@ -628,7 +628,7 @@ def main(ctx):
     # theorems + model driver first; the Tie theorems separately, so that a tie broken by a change in /repo does not take
     # the model driver (needed by the correspondences and by the search for a failing input) down with it
     lean_ok, errs = ctx.lake_build(["GojaModel.C01.Props", "model_c01"])
-    names = ctx.audit("GojaModel.C01.Props", expect_min=31) if lean_ok else []
+    names = ctx.audit("GojaModel.C01.Props", expect_min=33) if lean_ok else []
     tie_ok, terrs = ctx.lake_build(["GojaModel.C01.Tie"])
     if tie_ok:
         for t in ["modelOps_agree", "tie_new", "tie_rdupN", "tie_dupLast", "tie_concatStrings", "new_instance", "jumps_agree",
@@ -1072,7 +1072,8 @@ DYN_OBS = {"_pushSpread", "enterFunc", "enterFunc1", "enterFuncStashless", "ente
 
 RULE = ("cases = corpus files + corr1 expressions (random ASTs of the modelled fragment, depth 1-4, contexts function/global/"
         "sloppy named function expression × strict/sloppy × putOnStack) + corr1 statements (random statements of the modelled "
-        "fragment, depth 0-3, function body / named function expression / program body with needResult) + classifier payload kinds (exhaustive) + search programs "
+        "fragment, depth 0-3, function body / named function expression / program body with needResult; and of the fragment with "
+        "break/continue/try, depth 1-4) + classifier payload kinds (exhaustive) + search programs "
         "(62% grammar-generated over strict/sloppy × global/function/eval placement, 6% deep nesting 20-200, 22% token mutations, "
         "10% raw bytes; ≤ 64 KiB); distinct non-trivial = distinct canonical bytecode per corr1 case + distinct compiled unit accepted "
         "by the verifier + distinct (instruction, Δpc, Δsp) observation confirmed against the table")
